@@ -208,7 +208,7 @@ def readConsType (len : Nat) (bs : Bytes) : Outcome (Ty × Bytes) :=
       | .err k => .err k
       | .panic s => .panic s
 
-def maxTypeTableLen : Nat := 10000
+def maxTypeTableLen : Nat := Gen.maxTypeTableLen
 
 /-- methods of every service entry must point at a table entry that is a function -/
 def methodsAreFuncs (env : Env) : Bool :=
@@ -281,7 +281,7 @@ def readPrincipal (bs : Bytes) : Outcome (Bytes × Bytes) :=
   | flag :: r =>
     if flag ≠ 1 then .err .unsupported else
     match readLebCrate r with
-    | .ok (n, r1) => if n > 29 then .err .limit else takeN n r1
+    | .ok (n, r1) => if n > Gen.wirePrincipalMax then .err .limit else takeN n r1
     | .err k => .err k
     | .panic s => .panic s
 
